@@ -29,7 +29,10 @@ MSG = [("variable introduced in then statement", "VarIntroducedInThen"), ("wildc
        ("occurs only once", "UsedOnce"), ("term has conflicting types", "ConflictingType"), ("type of term undetermined", "UndeterminedType"),
        ("is not introduced with constructor", "EnumNotCtor"), ("undeclared symbol", "Undeclared"),
        ("symbol declared multiple times", "DeclaredTwice"), ("expected ", "BadKind"), (" arguments but ", "ArgCount"),
-       ("expected a variable", "ThenDefinedNotVar"), ("Missing match case", "MatchNotExhaustive")]
+       ("expected a variable", "ThenDefinedNotVar"), ("Missing match case", "MatchNotExhaustive"),
+       ("Pattern is a variable", "MatchPatternVar"), ("Pattern is a wildcard", "MatchPatternWild"),
+       ("Nested patterns", "MatchNested"), ("Variable in pattern has been used before", "MatchVarNotFresh"),
+       ("Conflicting pattern types", "MatchConflictingEnum")]
 
 
 def term(t):
@@ -120,6 +123,24 @@ def symbol_mutants(rnd):
         ("badkind-pred-as-type", "pred pp(p);", "symbol kind", ["BadKind"]),
     ]:
         add(label, base + decl + "\n", kind, classes, nb + 1)
+    # match statements: a well-formed base and one defect at a time
+    mdecl = "enum F {\n  Lf(),\n  Nd(A)\n}\npred seen(E);\n"
+    mb = base + mdecl
+    nm = mb.count("\n")
+
+    def mrule(cases):
+        return "rule mm {\n  if e: E;\n  match e {\n" + "".join(f"    {pat} => {{\n{body}    }}\n" for pat, body in cases) + "  }\n}\n"
+    ok_cases = [("Nil()", "      then seen(e);\n"), ("Cons(w)", "      then p(w);\n")]
+    out.append(("match-ok", mb + mrule(ok_cases), "none", [], []))
+    # line numbers: nm+1 rule, nm+2 if, nm+3 match, first case at nm+4 (3 lines per case)
+    add("match-missing-case", mb + mrule(ok_cases[:1]), "non-exhaustive match", ["MatchNotExhaustive"], nm + 3)
+    add("match-pattern-variable", mb + mrule(ok_cases + [("v", "      then seen(e);\n")]), "malformed pattern", ["MatchPatternVar"], nm + 10)
+    add("match-pattern-wildcard", mb + mrule(ok_cases + [("_", "      then seen(e);\n")]), "malformed pattern", ["MatchPatternWild"], nm + 10)
+    add("match-nested-pattern", mb + mrule([ok_cases[0], ("Cons(f(w))", "      then p(w);\n")]), "malformed pattern", ["MatchNested"], nm + 7)
+    notfresh = "rule mm {\n  if e: E;\n  if p(u);\n  match e {\n    Nil() => {\n      then seen(e);\n    }\n    Cons(u) => {\n      then p(u);\n    }\n  }\n}\n"
+    add("match-var-not-fresh", mb + notfresh, "malformed pattern", ["MatchVarNotFresh"], nm + 8)
+    out.append(("match-conflicting-enum", mb + mrule(ok_cases + [("Lf()", "      then seen(e);\n")]), "malformed pattern",
+                ["MatchConflictingEnum", "ConflictingType"], [nm + 3, nm + 10]))
     return out
 
 
@@ -162,7 +183,10 @@ def run(tier, replay):
         for prog in chosen:
             items.append(({"ev": "prog", "prog": prog}, render(prog)))
         for label, text, kind, classes, line in symbol_mutants(rnd):
-            items.append(({"ev": "mutant", "label": label, "planted": kind, "expected": classes, "lines_expected": line}, text))
+            if kind == "none":
+                items.append(({"ev": "valid", "label": label}, text))
+            else:
+                items.append(({"ev": "mutant", "label": label, "planted": kind, "expected": classes, "lines_expected": line}, text))
         for f in sorted(os.listdir(theories.THEORIES)):
             if f.endswith(".eql"):
                 items.append(({"ev": "valid", "label": "corpus/" + f}, open(os.path.join(theories.THEORIES, f)).read()))
